@@ -11,6 +11,7 @@ CONSTANTS
   BatchVecs = {}
   FConsolidateTombstones = TRUE
   SkipRejected = TRUE
+  ConsolidateBatch = 100
   FBufferBlind = TRUE
 CONSTRAINT HighWater
 POSTCONDITION TraceAccepted
